@@ -327,7 +327,7 @@ def main(check: Check, argv=None):
         except Exception:
             ok, msg = False, "replay raised: " + traceback.format_exc()[-600:]
         if not ok:
-            if (fl.get("detail") or {}).get("candidate_from_abstraction"):
+            if (fl.get("detail") or {}).get("candidate_from_abstraction") or (fl.get("detail") or {}).get("path_unverified"):
                 inconclusive.append((fl["cfg"].get("name"), fl["label"], "candidate model of the FP abstraction did not reproduce and the bit-precise query timed out"))
             else:
                 harness_errors.append((fl["label"], msg, cex))
